@@ -222,7 +222,10 @@ static void ProcessFile(char const* FileName, LongWord Offset) {
             }
         }
 
-        else if (InpHeader == FileHeaderDataRec) {
+        /* (a record 'with symbols' is absolute data followed by a record of export
+           entries, which is skipped like every record not handled here) */
+
+        else if ((InpHeader == FileHeaderDataRec) || (InpHeader == FileHeaderRDataRec)) {
             if (!Read4(SrcFile, &InpStart)) {
                 ChkIO(FileName);
             }
@@ -385,7 +388,7 @@ static void MeasureFile(char const* FileName, LongWord Offset) {
     do {
         ReadRecordHeader(&Header, &CPU, &Segment, &Gran, FileName, f);
 
-        if (Header == FileHeaderDataRec) {
+        if ((Header == FileHeaderDataRec) || (Header == FileHeaderRDataRec)) {
             if (!Read4(f, &Adr)) {
                 ChkIO(FileName);
             }
